@@ -1,4 +1,5 @@
-(* Helpers evaluated by the generated case files of C16, and the executable triggers of its recorded findings.
+(* Helpers evaluated by the generated case files of C16, and the executable trigger of its recorded finding
+   (lcd-nested-region-conflict; the triggers of lcd-position and lcd-position-survives went away with their repairs).
    A case = configuration, source document, the implementation's outcome (Ok filtered document | Err class of the
    exception), query times.  No proofs here. *)
 From Coq Require Import Qabs.
@@ -38,7 +39,7 @@ Definition same_key_order (m py : res doc) : bool :=
    origin and origin + extent.  A case is tie-sensitive when such a quantity is within 1e-6 of 50. ---------- *)
 Definition near50 (q : Q) : bool := Qle_bool (Qabs (Qminus q q50)) (Qmake 1 1000000).
 Definition region_tie (c : lcd_cfg) (d : doc) (inits : smap) (r : elem) : bool :=
-  match region_pre d inits (keep_styles c (e_styles (eattrs r))) with
+  match region_pre d inits (keep_rstyles c (e_styles (eattrs r))) with
   | Ok st =>
       match sget st p_Origin, sget st p_Extent with
       | Some (VCoord x y), Some (VExtent h w) =>
@@ -51,18 +52,6 @@ Definition tie_sensitive (c : lcd_cfg) (d : doc) : bool :=
   existsb (region_tie c d (keep_styles c (d_initials d))) (d_regions d).
 
 (* ---- triggers of the recorded findings -------------------------------------------------------------------- *)
-(* lcd-position: a region with tts:position whose extent is not already expressed in rh/rw *)
-Definition region_position_trigger (a : attrs) : bool :=
-  shas (e_styles a) p_Position &&
-  negb (match sget (e_styles a) p_Extent with
-        | Some (VExtent h w) => unit_eqb (lu h) Urh && unit_eqb (lu w) Urw
-        | _ => false
-        end).
-Definition trig_position (d : doc) : bool := existsb (fun r => region_position_trigger (eattrs r)) (d_regions d).
-(* lcd-position-survives: tts:position outside regions (content elements, initial values) *)
-Definition trig_position_content (d : doc) : bool :=
-  existsb (fun a => shas (e_styles a) p_Position) (body_attrs d) || shas (d_initials d) p_Position ||
-  existsb (fun r => existsb (fun a => shas (e_styles a) p_Position) (flat_map elems_of (echildren r))) (d_regions d).
 (* lcd-nested-region-conflict: an element with a region attribute below an ancestor associated with another region,
    the two regions being merged by the filter (al = the filter's alias list) *)
 Definition alias_of (al : list (text * text)) (r : text) : text := match lookup_id al r with Some t => t | None => r end.
@@ -82,51 +71,60 @@ Definition trig_nested (c : lcd_cfg) (d : doc) : bool :=
   | _, _ => false
   end.
 
-(* the whitelist with tts:position tolerated outside region roots (what the finding lcd-position-survives excuses) *)
-Definition whitelist_but_position_b (c : lcd_cfg) (d' : doc) : bool :=
-  let ok kv := allowed_b (c_pta c) (c_color c) (c_bg c) kv || (fst kv =? p_Position) in
-  forallb (fun r => forallb (allowed_b (c_pta c) (c_color c) (c_bg c)) (e_styles (eattrs r)) &&
-                    forallb (fun a => forallb ok (e_styles a)) (flat_map elems_of (echildren r))) (d_regions d') &&
-  forallb (fun a => forallb ok (e_styles a)) (body_attrs d') && forallb ok (d_initials d').
-
 (* ---- the domain of the theorems (well-formedness of the canonical model, C15), as executable predicates ------------- *)
-(* region geometry is of its value class and not in em (style_properties.py validate) *)
+(* region geometry is of its value class, not in em, and an extent has its height in %, px, c or rh and its width in %, px, c
+   or rw (style_properties.py validate, enforced by set_style and put_initial_value) *)
 Definition not_em (l : len) : bool := negb (unit_eqb (lu l) Uem).
+Definition height_unit (l : len) : bool := not_em l && negb (unit_eqb (lu l) Urw).
+Definition width_unit (l : len) : bool := not_em l && negb (unit_eqb (lu l) Urh).
 Definition geometry_typed (m : smap) : bool :=
   match sget m p_Origin with None => true | Some (VCoord x y) => not_em x && not_em y | Some _ => false end &&
-  match sget m p_Extent with None => true | Some (VExtent h w) => not_em h && not_em w | Some _ => false end &&
+  match sget m p_Extent with None => true | Some (VExtent h w) => height_unit h && width_unit w | Some _ => false end &&
   match sget m p_Position with None => true | Some (VPos h _ v _) => not_em h && not_em v | Some _ => false end.
 Definition inits_typed (m : smap) : bool :=
   match sget m p_Origin with None | Some (VCoord _ _) => true | Some _ => false end &&
-  match sget m p_Extent with None | Some (VExtent _ _) => true | Some _ => false end.
+  match sget m p_Extent with None => true | Some (VExtent h w) => height_unit h && width_unit w | Some _ => false end.
 Definition lcd_typed (d : doc) : bool :=
   forallb (fun r => geometry_typed (e_styles (eattrs r))) (d_regions d) && inits_typed (d_initials d).
+
+(* the content model of the canonical document as far as the computed-style theorem needs it (model.py: push_child type
+   checks, Region/Br/Text do not have children): regions are region elements; in the body, br and text have no children, there
+   is no region element and no p inside a p *)
+Fixpoint content_ok (in_p : bool) (e : elem) : bool :=
+  match e with
+  | Elem a cs =>
+      negb (kind_eqb (e_kind a) KRegion) &&
+      (if is_leaf_kind (e_kind a) then match cs with [] => true | _ => false end else true) &&
+      negb (in_p && kind_eqb (e_kind a) KP) &&
+      (fix go (l : list elem) : bool :=
+         match l with [] => true | x :: l' => content_ok (in_p || kind_eqb (e_kind a) KP) x && go l' end) cs
+  end.
+Definition lcd_content_b (d : doc) : bool :=
+  forallb (fun r => kind_eqb (e_kind (eattrs r)) KRegion) (d_regions d) &&
+  match d_body d with Some b => content_ok false b | None => true end.
 
 Fixpoint nodup_z (l : list Z) : bool := match l with [] => true | x :: l' => negb (existsb (Z.eqb x) l') && nodup_z l' end.
 Fixpoint nodup_t (l : list text) : bool := match l with [] => true | x :: l' => negb (existsb (text_eqb x) l') && nodup_t l' end.
 Definition wf_doc_b (d : doc) : bool :=
   lcd_typed d &&
   forallb (fun r => nodup_z (skeys (e_styles (eattrs r)))) (d_regions d) &&
+  forallb (fun r => match echildren r with [] => true | _ => false end) (d_regions d) &&
   forallb (fun r => match e_id (eattrs r) with Some _ => true | None => false end) (d_regions d) &&
   nodup_t (map (fun r => rid (eattrs r)) (d_regions d)) &&
-  refs_resolved_b d.
+  refs_resolved_b d && lcd_content_b d.
 
 (* ---- case evaluation ---------------------------------------------------------------------------------------- *)
 Definition on_ok (py : res doc) (f : doc -> bool) : bool := match py with Ok d' => f d' | Err _ => true end.
 (* static clauses of S on the implementation's result; excused = the finding's trigger *)
 Definition case_static (c : lcd_cfg) (d : doc) (py : res doc) : list bool :=
   [ on_ok py no_anim_b;
-    on_ok py (whitelist_b (c_pta c) (c_color c) (c_bg c)) || (trig_position_content d && on_ok py (whitelist_but_position_b c));
+    on_ok py (whitelist_b (c_pta c) (c_color c) (c_bg c));
     on_ok py (safe_area_b (c_sa c));
-    on_ok py (merged_b d);
+    on_ok py (merged_b (c_pta c) d);
     on_ok py (fun d' => refs_resolved_b d' && redirected_b true d d');
-    match py with Ok _ => true | Err _ => trig_position d end;
+    match py with Ok _ => true | Err _ => false end;
     (* the model run again on the implementation's result gives that result back *)
     on_ok py (fun d' => lcd_outcome_close (lcd c d') (Ok d')) ].
-(* the same without the excuses: tells whether a finding still fires *)
-Definition case_strict (c : lcd_cfg) (d : doc) (py : res doc) : list bool :=
-  [ on_ok py (whitelist_b (c_pta c) (c_color c) (c_bg c));
-    match py with Ok _ => true | Err _ => false end ].
 (* timeline at the query times: required when the document hides nothing and the nested-conflict trigger does not fire *)
 Definition case_timeline (c : lcd_cfg) (d : doc) (py : res doc) (ts : list Q) : list bool :=
   map (fun t => (on_ok py (fun d' => timeline_b d d' t) || negb (no_hiding_b d) || trig_nested c d) &&
@@ -140,3 +138,25 @@ Definition case_computed (c : lcd_cfg) (py : res doc) (ts : list Q) : list bool 
                                     | Ok s => computed_b (c_pta c) (c_color c) (c_bg c) s
                                     | Err _ => true
                                     end)) ts.
+
+(* preserved alignment (clause 6 of S, second part) on the implementation's result: for every source region x, the region of the result
+   that stands for it (its id is the alias of x's id under the model's alias list) gives every prefix of every chain the same alignment *)
+Fixpoint prefixes {A} (l : list A) : list (list A) := [] :: match l with [] => [] | x :: l' => map (cons x) (prefixes l') end.
+Definition align_chain_b (d d' : doc) (x x' : attrs) (ch ch' : list attrs) : bool :=
+  forallb (fun p => oenum_eqb (computed_align d x (fst p)) (computed_align d' x' (snd p))) (zip (prefixes ch) (prefixes ch')).
+Definition case_align (c : lcd_cfg) (d : doc) (py : res doc) : bool :=
+  negb (c_pta c) ||
+  match py, lcd_aliases c d with
+  | Ok d', Ok al =>
+      match d_body d, d_body d' with
+      | Some b, Some b' =>
+          forallb (fun x => match find_region d' (alias_of al (rid (eattrs x))) with
+                            | Some x' => (Z.of_nat (length (chains b)) =? Z.of_nat (length (chains b'))) &&
+                                         forallb (fun p => align_chain_b d d' (eattrs x) x' (fst p) (snd p)) (zip (chains b) (chains b'))
+                            | None => false
+                            end) (d_regions d)
+      | None, None => true
+      | _, _ => false
+      end
+  | _, _ => true
+  end.
